@@ -81,10 +81,10 @@ var vkOps = []*vkOp{
 	{Name: "AddConst", Family: "Elem", Classes: vkAll, Ref: ik.RefAddConst[complex128],
 		Shape: ik.Shape{HasX: true, WritesX: true, Alpha: true},
 		Call:  func(a *vkArgs) { AddConst(a.Alpha, a.X) }},
-	{Name: "CumSum", Family: "Elem", Classes: vkAll, Ref: ik.RefCumSum[complex128],
+	{Name: "CumSum", Family: "Elem", Classes: vkAll, Ref: ik.RefCumSum[complex128], Prefix: "sum",
 		Shape: ik.Shape{HasX: true, HasDst: true, RetDst: true, AliasX: true},
 		Call:  func(a *vkArgs) { a.RetS = CumSum(a.Dst, a.X) }},
-	{Name: "CumProd", Family: "Elem", Classes: vkAll, Ref: ik.RefCumProd[complex128],
+	{Name: "CumProd", Family: "Elem", Classes: vkAll, Ref: ik.RefCumProd[complex128], Prefix: "prod",
 		Shape: ik.Shape{HasX: true, HasDst: true, RetDst: true, AliasX: true},
 		Call:  func(a *vkArgs) { a.RetS = CumProd(a.Dst, a.X) }},
 	{Name: "Div", Family: "Elem", Classes: vkAll, Ref: ik.RefDiv[complex128],
